@@ -560,3 +560,75 @@ func gobCompatible(a, b types.Type) bool {
 	}
 	return types.Identical(a, b)
 }
+
+// ---- net/url, path/filepath (assumed: deterministic total functions of their argument) -----------
+//
+// url.Parse(s) yields (urlOf(s), parseErr(s)); the components are uninterpreted functions of s. The
+// query of a URL is modelled, for the bounded query obligations, by a driver-supplied finite multimap
+// (ex.urlQueries); otherwise it is an opaque map.
+
+var urlSort = Sort("O_P_url_URL")
+
+func init() {
+	parse := func(ex *Exec, st *State, a []Value, x *ssa.Call) Value {
+		s := a[0].(*Term)
+		u := App("urlOf", urlSort, s)
+		e := App("urlParseErr", SErr, s)
+		ex.assume(Implies(Eq(e, ErrNil), Neq(u, Lit(urlSort, "zero"))))
+		return &TupleVal{V: []Value{u, e}}
+	}
+	externals["url.Parse"] = parse
+	externals["url.ParseRequestURI"] = func(ex *Exec, st *State, a []Value, x *ssa.Call) Value {
+		s := a[0].(*Term)
+		u := App("urlOfRequestURI", urlSort, s)
+		e := App("urlParseRequestURIErr", SErr, s)
+		ex.assume(Implies(Eq(e, ErrNil), Neq(u, Lit(urlSort, "zero"))))
+		return &TupleVal{V: []Value{u, e}}
+	}
+	externals["(*url.URL).Query"] = func(ex *Exec, st *State, a []Value, x *ssa.Call) Value {
+		var q func(u *Term) Value
+		q = func(u *Term) Value {
+			if v, ok := ex.urlQueries[u]; ok {
+				return v
+			}
+			if u.Op == "ite" {
+				l, r := q(u.Args[1]), q(u.Args[2])
+				if _, ok := l.(*MapVal); ok {
+					if _, ok := r.(*MapVal); ok {
+						return ex.merge(u.Args[0], l, r)
+					}
+					return l // the other branch is the nil URL, on which Query is never reached
+				}
+				if _, ok := r.(*MapVal); ok {
+					return r
+				}
+			}
+			return App("url.Query", sortOf(x.Type()), u)
+		}
+		return q(a[0].(*Term))
+	}
+	externals["(*url.URL).String"] = func(ex *Exec, st *State, a []Value, x *ssa.Call) Value {
+		return App("url.String", SStr, a[0].(*Term))
+	}
+	externals["(*url.URL).Hostname"] = func(ex *Exec, st *State, a []Value, x *ssa.Call) Value {
+		return App("url.Hostname", SStr, a[0].(*Term))
+	}
+	externals["filepath.Clean"] = func(ex *Exec, st *State, a []Value, x *ssa.Call) Value {
+		return App("filepath.Clean", SStr, a[0].(*Term))
+	}
+	externals["strings.Index"] = func(ex *Exec, st *State, a []Value, x *ssa.Call) Value {
+		r := App("strings.Index", SInt, a[0].(*Term), a[1].(*Term))
+		ex.assume(And(Ge(r, IntLit(-1)), Le(r, SLen(a[0].(*Term)))))
+		return r
+	}
+	externals["strings.Contains"] = func(ex *Exec, st *State, a []Value, x *ssa.Call) Value {
+		return App("strings.Contains", SBool, a[0].(*Term), a[1].(*Term))
+	}
+}
+
+// QueryModel: a finite multimap standing for url.Values: keys (symbolic strings, pairwise distinct
+// by hypothesis) each with a concrete number of symbolic values.
+type QueryModel struct {
+	Keys []*Term
+	Vals [][]*Term
+}
